@@ -193,6 +193,20 @@ S.fn("problog.util:BitVector.__ior__", types={"other": "BV"}, returns="BV",
      ensures=["result is self", "BVI(self)",
               "forall(lambda j: M(self, j) == (old(M(self, j)) or old(M(other, j))))"])
 
+S.recfun("sumpop", [("bs", "List[Int]"), ("k", "Int")], "Int", "0 if k <= 0 else sumpop(bs, k - 1) + popcount(bs[k - 1])")
+S.fn("problog.util:BitVector.__len__", returns="Int",
+     requires=["BVI(self)"],
+     loops={0: loop(index="k", invariant=["n == sumpop(self.blocks, k)", "n >= 0",
+                                          "popcount(0) == 0"])},      # (axiom of the shared symbol, made available to the step)
+     # the number of members: the sum over the blocks of the number of set bits
+     ensures=["result == sumpop(self.blocks, len(self.blocks))"])
+
+S.fn("problog.util:BitVector.__bool__", returns="Bool",
+     requires=["BVI(self)"],
+     loops={0: loop(index="k", invariant=["forall(lambda t: implies(0 <= t < k, self.blocks[t] == 0))"])},
+     # non-empty exactly when some block is non-zero (a block is non-zero iff it has a member: lemma nonzero_block_has_bit)
+     ensures=["result == exists(lambda t: 0 <= t < len(self.blocks) and self.blocks[t] != 0)"])
+
 # =============================================================================== OrderedSet
 # The cells are 3-element Python lists [key, prev, next] that alias each other: heap records.
 # Ghost view: g_cells = the cells in ring order (so order(i) = g_cells[i][0] is the iteration
@@ -374,6 +388,8 @@ def native_build(qual, recipe):
         a = mk(recipe["a"])
         if m in ("add", "__contains__"):
             return dict(self=a, index=recipe["index"])
+        if m in ("__bool__", "__len__"):
+            return dict(self=a)
         other = a if recipe.get("same") else mk(recipe["b"])
         return dict(self=a, other=other)
     raise Skip()
@@ -446,4 +462,4 @@ def _lastcall(sortname):
     return _LAST[0]
 
 
-NATIVE_SPEC = {"lastcall": _lastcall}
+NATIVE_SPEC = {"lastcall": _lastcall, "popcount": lambda x: bin(x).count("1")}
